@@ -397,6 +397,13 @@ class Interp:
             # start a traversal of cache `seal_of` in direction `field`
             cache = st.store.get(seal_of)
             tab = cache[2].get(r.TABLE) if cache and cache[0] == "struct" else None
+            # the list enumerates the entries of the table its nodes live in -- normally the installed one, but not between a swap of
+            # the tables and the rewrite of the seal's links (ghost #list_tid: the table the seal's links currently lead into)
+            ltid = cache[2].get("#list_tid") if cache and cache[0] == "struct" else None
+            if ltid is not None and tab is not None and tab[0] == "struct" and tab[2].get("#tid") != ltid:
+                other = self.table_by_tid(st, ltid)
+                if other is not None:
+                    tab = other[2]
             if tab is not None and tab[0] == "struct" and tab[1] == RAWTABLE and is_int(tab[2].get("G")):
                 c = self.new_oid("C")
                 st.store[c] = ("cursor", {"R": tab[2]["G"][1], "Rn": tab[2]["N"][1], "dir": field, "seal": oid,
@@ -575,6 +582,23 @@ class Interp:
                 self.gdel(st, "unlinked", self.resolve_ptr(st, rawv)[0])
             except Unsupported:
                 pass
+        # ghost #list_tid of the cache whose seal is written: the table the list now leads into
+        so = tgt_obj[2].get("#seal_of")
+        if so is not None and rawv is not None and rawv[0] == "ptr":
+            cv = st.store.get(so)
+            if cv is not None and cv[0] == "struct" and "#list_tid" in cv[2]:
+                try:
+                    tgt_oid = self.resolve_ptr(st, rawv)[0]
+                    pv = st.store.get(tgt_oid)
+                    f2 = dict(cv[2])
+                    if tgt_oid == oid:
+                        f2["#list_tid"] = None                      # the seal points at itself: empty list (installed table)
+                    elif pv is not None and pv[0] == "struct" and pv[1] == self.r.entry and pv[2].get("#tid") is not None \
+                            and not (isinstance(pv[2]["#tid"], tuple) and pv[2]["#tid"] and pv[2]["#tid"][0] in ("stale", "freed")):
+                        f2["#list_tid"] = pv[2]["#tid"]
+                    st.store[so] = ("struct", cv[1], f2)
+                except Unsupported:
+                    pass
         installed = self.cache_tids(st)
         owner_is_cache = tgt_obj[2].get("#seal_of") is not None or (tgt_obj[2].get("#tid") in installed and tgt_obj[2].get("#tid") is not None)
         if not owner_is_cache:
@@ -729,6 +753,27 @@ class Frame:
         return v
 
     def write_place(self, st, pl, val):
+        # a store through a handle that was read off a link *before* a removal from that table (and never compared since) may hit
+        # the vacated bucket
+        if any(e["k"] == "deref" for e in pl["p"]):
+            try:
+                cur_oid, cur_path = self.L(pl["l"]), ()
+                for e in pl["p"]:
+                    if e["k"] == "deref":
+                        v = self.ip.load(st, cur_oid, cur_path)
+                        if v[0] == "ptr":
+                            cv = st.store.get(v[1])
+                            if cv is not None and cv[0] == "cursor" and cv[1].get("res") is None and cv[1].get("stale"):
+                                last = pl["p"][-1]
+                                self.ip.gadd(st, "stale_write", "through a handle read before a removal: .%s" % (last.get("n") or last.get("k")))
+                            break
+                        break
+                    elif e["k"] == "field":
+                        cur_path = cur_path + ((e.get("n") if e.get("n") is not None else str(e["i"])),)
+                    else:
+                        break
+            except Exception:
+                pass
         oid, path = self.place_loc(st, pl)
         self.ip.write(st, oid, path, val)
 
